@@ -1,29 +1,40 @@
 #!/venv/bin/python
-"""dev helper: apply each behaviour-preserving refactoring /tmp/refac_<i>/<k>.diff in worktree /tmp/wr_<i> and run all checks; any verdict change is a false alarm"""
-import glob, json, os, subprocess, sys, tempfile, shutil
+"""dev helper: apply each stored behaviour-preserving refactoring /verif/refactors/<id>/patch.diff in a scratch worktree (/tmp/wr_1..4, one per worker) and run
+all twenty checks; any change of verdict (finding keys or analysis errors) w.r.t. the clean-tree evidence is a false alarm.
+usage: tools/refeval.py [id-substring ...] [--tests]"""
+import glob, json, os, subprocess, sys, tempfile, shutil, queue
 from concurrent.futures import ThreadPoolExecutor
 PROPS = ["C%02d" % i for i in range(1, 21)]
+WTS = [w for w in os.environ.get("WTS", "/tmp/wr_1 /tmp/wr_2 /tmp/wr_3 /tmp/wr_4").split() if os.path.isdir(w)]
+pool = queue.Queue()
+for w in WTS:
+    pool.put(w)
 base = {}
 for p in PROPS:
     ev = json.load(open("/verif/evidence/%s.json" % p))
     base[p] = set(ev["coverage"]["new_findings"]) | set(ev["coverage"]["known_findings_matched"])
+tests = "--tests" in sys.argv
+sel = [a for a in sys.argv[1:] if not a.startswith("--")]
+
+
 def sh(cmd, cwd):
     r = subprocess.run(cmd, cwd=cwd, shell=True, capture_output=True, text=True)
     return r.returncode, r.stdout + r.stderr
-areas = sys.argv[1:] or ["1", "2", "3", "4"]
-tests = "--tests" in sys.argv
-for a in [x for x in areas if x.isdigit()]:
-    wt = "/tmp/wr_" + a
-    for d in sorted(glob.glob("/tmp/refac_%s/*.diff" % a), key=lambda x: int(os.path.basename(x).split(".")[0])):
+
+
+def one(d):
+    wt = pool.get()
+    try:
         sh("git checkout -- . && git clean -fdq", wt)
-        rc, out = sh("git apply " + d, wt)
+        rc, out = sh("git apply " + os.path.join(d, "patch.diff"), wt)
         if rc != 0:
-            print(d, "DOES NOT APPLY", out[-100:]); continue
+            return d, "DOES NOT APPLY", []
         tmsg = ""
         if tests:
             rc_t, out_t = sh("/venv/bin/python -m pytest -q -p no:cacheprovider -x 2>&1 | tail -1", wt)
-            tmsg = "tests:" + ("ok" if "330 passed" in out_t else "FAIL")
-        def one(p):
+            tmsg = " tests:" + ("ok" if "330 passed" in out_t else "FAIL")
+        bad = []
+        for p in PROPS:
             od = tempfile.mkdtemp(prefix="ciwout-")
             try:
                 r = subprocess.run(["/venv/bin/python", "-m", "sa.run", p, "--root", wt], cwd="/verif", env=dict(os.environ, VERIF_OUTDIR=od), capture_output=True, text=True)
@@ -33,17 +44,26 @@ for a in [x for x in areas if x.isdigit()]:
                     errs = ev["coverage"]["analysis_errors"]
                 except Exception:
                     keys, errs = set(), ["crash " + r.stdout[-300:]]
-                return p, sorted(keys - base[p]), sorted(base[p] - keys), errs
+                if keys != base[p] or errs:
+                    bad.append((p, sorted(keys - base[p]), sorted(base[p] - keys), errs))
             finally:
-                shutil.rmtree(od)
-        bad = []
-        with ThreadPoolExecutor(16) as ex:
-            for p, new, gone, errs in ex.map(one, PROPS):
-                if new or gone or errs:
-                    bad.append((p, new, gone, errs))
-        print(d, tmsg, "SILENT" if not bad else "VERDICT CHANGED: " + ",".join(b[0] for b in bad), flush=True)
+                shutil.rmtree(od, ignore_errors=True)
+        return d, ("SILENT" if not bad else "VERDICT CHANGED: " + ",".join(b[0] for b in bad)) + tmsg, bad
+    finally:
+        sh("git checkout -- . && git clean -fdq", wt)
+        pool.put(wt)
+
+
+dirs = [d.rstrip("/") for d in sorted(glob.glob("/verif/refactors/*/")) if not sel or any(a in d for a in sel)]
+nbad = 0
+with ThreadPoolExecutor(len(WTS)) as ex:
+    for d, msg, bad in ex.map(one, dirs):
+        if msg.startswith("SILENT"):
+            continue
+        nbad += 1
+        print(os.path.basename(d), msg, flush=True)
         for p, new, gone, errs in bad:
             for k in new[:3]: print("      +", p, k[:170])
             for k in gone[:3]: print("      -", p, k[:170])
             for e in errs[:2]: print("      E", p, e[:170])
-        sh("git checkout -- . && git clean -fdq", wt)
+print("%d refactorings, %d change a verdict" % (len(dirs), nbad))
